@@ -24,12 +24,12 @@ var rec = ev.New("C19",
 func TestMain(m *testing.M) { code := m.Run(); rec.Flush(); os.Exit(code) }
 
 type Case struct {
-	Spec  *world.Spec  `json:"spec"`
-	Query *world.Query `json:"query"`
-	Modes world.Modes  `json:"modes"`
-	Sched string       `json:"sched"`
-	Text  string       `json:"text"`
-	Pruned string      `json:"pruned_text"`
+	Spec   *world.Spec  `json:"spec"`
+	Query  *world.Query `json:"query"`
+	Modes  world.Modes  `json:"modes"`
+	Sched  string       `json:"sched"`
+	Text   string       `json:"text"`
+	Pruned string       `json:"pruned_text"`
 }
 
 func copyVals(m map[string]interface{}) map[string]interface{} {
@@ -148,12 +148,15 @@ func run(t interface{ Fatalf(string, ...interface{}) }, test string, c Case, f w
 	}
 }
 
-func TestDirectives(t *testing.T) {
-	rapid.Check(t, func(t *rapid.T) {
-		c, f := genCase(t)
-		run(t, "TestDirectives", c, f)
-	})
+func TestDirectives(t *testing.T) { rapid.Check(t, propDirectives) }
+
+func propDirectives(t *rapid.T) {
+	c, f := genCase(t)
+	run(t, "TestDirectives", c, f)
 }
+
+// FuzzDirectives: the same property driven by the coverage-guided engine (thorough tier).
+func FuzzDirectives(f *testing.F) { f.Fuzz(rapid.MakeFuzz(propDirectives)) }
 
 func TestReplay(t *testing.T) {
 	p := os.Getenv("VERIF_REPLAY")
